@@ -28,9 +28,10 @@ def escape_params(rng, calm=False):
     return p
 
 
-def esc_job(jid, prog, params, laws=0, mono=False, lawseed=1):
+def esc_job(jid, prog, params, laws=0, mono=False, lawseed=1, keep_func_order=False):
     j = sysa.make_job(jid, "escape", prog, {"log-level": 1}, params)
     j["laws"], j["mono_check"], j["law_seed"] = laws, mono, lawseed
+    j["keep_func_order"] = keep_func_order
     j["_prog"] = prog["name"]
     return j
 
@@ -55,7 +56,16 @@ def esc_diff(ref, got):
     return None
 
 
-def esc_signatures(r, ref=None):
+FUNC_ORDER_TAG = " [function work-queue order permuted]"
+
+
+def esc_signatures(r, ref=None, job=None):
+    """job: when given, order-dependent signatures of runs in which the *function* work queue was permuted carry a tag
+    (a recorded known finding concerns exactly those; with the function order the analysis uses, block-queue and
+    map-order permutations must still leave the fixpoint unchanged)."""
+    tag = ""
+    if job is not None and job.get("params", {}).get("worklist_perm_pct") and not job.get("keep_func_order"):
+        tag = FUNC_ORDER_TAG
     out = []
     if r is None:
         return out
@@ -63,17 +73,22 @@ def esc_signatures(r, ref=None):
         txt = r.get("panic") or r.get("stderr") or json.dumps((r.get("sim") or {}).get("panics"))
         return ["escape analysis crashed: " + sysa.short_panic(txt)[:160]]
     e = r.get("escape") or {}
-    if e.get("not_fixpoint"):
-        out.append("analysis stopped before a fixpoint: re-processing a block changes its graph")
+    for nf in e.get("not_fixpoint") or []:
+        cls = nf.split(": ", 1)[1] if ": " in nf else "graph changes"
+        out.append("analysis stopped before a fixpoint: re-processing a block changes its graph (%s)" % cls + tag)
     for m in e.get("monotonicity") or []:
         import re
+        if m.startswith("self-check:"):
+            # the repository's dormant self-check compares graphs by node identity across re-summarisations; it
+            # fires on renamed load nodes (see DESIGN 8.3) and is recorded as an observation, not as a verdict
+            continue
         out.append(re.sub(r" in \S+", "", m).split(" (")[0])
     for l in e.get("laws") or []:
         out.append("law violated: " + l.split(" in ")[0])
     if ref is not None:
         d = esc_diff(ref, r)
         if d:
-            out.append("fixpoint depends on processing order: " + d.split(" (")[0].split(" of ")[0])
+            out.append("fixpoint depends on processing order: " + d.split(" (")[0].split(" of ")[0] + tag)
     return sorted(set(out))
 
 
@@ -86,7 +101,7 @@ def observe(binary, job):
         return ["no verdict"]
     if r0.get("panic") or r0.get("died"):
         return ["crash under the calm order too (not a C15 matter)"]
-    return esc_signatures(r, r0)
+    return esc_signatures(r, r0, job)
 
 
 def run_replay(prop, path):
@@ -139,7 +154,7 @@ def check_c15(tier, seed):
         meta.append(None)
         for k in range(norders):
             j = esc_job(len(jobs), prog, escape_params(rng), laws=laws if k % 3 == 0 else 0, mono=(k % 2 == 0),
-                        lawseed=rng.below(1 << 30))
+                        lawseed=rng.below(1 << 30), keep_func_order=(k % 2 == 1))
             jobs.append(j)
             meta.append(ri)
     res = run_jobs(binary, jobs, timeout=600 if tier == "quick" else 1800, progress=1000)
@@ -156,6 +171,8 @@ def check_c15(tier, seed):
         for k, v in (e.get("counts") or {}).items():
             counts[k] += v
         counts["contexts_walked"] += e.get("contexts", 0)
+        if any(m.startswith("self-check:") for m in e.get("monotonicity") or []):
+            observations["runs in which the repository's own monotonicity self-check logged a violation (node-identity based; not a verdict)"] += 1
         counts["instructions_classified"] += len(e.get("locality") or {})
         ref = res[ri] if ri is not None else None
         if ref is not None and (sysa.classify_hard(ref) or ref.get("died") or ref.get("panic")):
@@ -166,7 +183,7 @@ def check_c15(tier, seed):
             continue
         if ref is not None:
             counts["order_comparisons"] += 1
-        for sig in esc_signatures(r, ref):
+        for sig in esc_signatures(r, ref, j):
             def pred(rr, cand=None, s=sig, jj=j):
                 cj = cand or {k: v for k, v in jj.items() if not k.startswith("_")}
                 if rr is None or sysa.classify_hard(rr):
@@ -177,8 +194,8 @@ def check_c15(tier, seed):
                     r0 = run_one(binary, rj, timeout=900)
                     if r0 is None or sysa.classify_hard(r0) or r0.get("panic") or r0.get("died"):
                         return False
-                    return s in esc_signatures(rr, r0)
-                return s in esc_signatures(rr, None)
+                    return s in esc_signatures(rr, r0, cj)
+                return s in esc_signatures(rr, None, cj)
             report_violation(rep, binary, "C15", j, sig, pred, "run-%d" % j["id"])
     cov = st.coverage(RULE_E, {"programs": len(progs), "orders_per_program": norders, "oracle_counts": dict(counts),
                                "observations": dict(observations),
